@@ -41,7 +41,33 @@ NONTRIVIAL.update({
     "index": lambda c: c not in ("idx x",),
 })
 
+NONTRIVIAL.update({
+    # cmp: the two texts differ
+    "cmp": lambda c: len(set(hexfields(c))) == 2,
+    # conv: a text with '~' or an inner '/', or an integer with at least two characters
+    "conv": lambda c: any(("7e" in f or "2f" in f[3:]) for f in hexfields(c)) or (c.startswith("tint ") and len(c) > 6),
+})
+
 PROPERTIES = {
+    "C17": {
+        "runs": [{"suite": "cmp"}],
+        "exhaustive": False,
+        "level_text": "THIN THEOREMS, HEAVY TIE (DESIGN 6/C17, 9). Proved in Coq: the text comparison the model uses for every impl (str_cmp / str_eqb) is a total order whose Eq case is equality, "
+                      "consistent with the equality impls and with the hash stream (text ++ 0xff is injective), so lookups through Borrow are sound. That each of the 17 hand-written PartialEq, "
+                      "15 hand-written PartialOrd impls and the derived Eq/Ord/Hash is that function is established by the tie: all ordered pairs of 60 pointer texts through every impl by UFCS, "
+                      "eq/ne/partial_cmp/lt/le/gt/ge/cmp, a recording Hasher for Pointer/PointerBuf/str/String, HashMap/HashSet/BTreeMap lookups with &Pointer and iteration order.",
+        "rule": "suite cmp: all 3600 ordered pairs of 60 pointer texts (equal, prefix-related, first/middle/last byte differing, length only, multi-byte) x 19 equality and 17 ordering impls + Ord + hash streams + map lookups; "
+                "non-trivial = the two texts differ; distinct = distinct case lines",
+    },
+    "C18": {
+        "runs": [{"suite": "conv"}],
+        "level_text": "THIN THEOREMS, HEAVY TIE for the identity conversions. Proved in Coq: deserialize(serialize p) = p for valid p and deserialize refuses exactly the invalid texts (via C02); "
+                      "a Token made from an integer is its decimal spelling, valid as it stands, decodes to itself, parses back as the same index, and distinct integers give distinct tokens (all integers, "
+                      "the widths only restrict the domain). to_buf/to_owned/Cow/Box<->into_buf/to_json_value/Display/into_owned are the identity on the text in the model; the tie runs each of them "
+                      "(Box round trip with 5 capacity/length combinations; three deserializers; Token::from on the boundary values of all 12 integer types). The raw-pointer casts are exercised, not verified.",
+        "rule": "suite conv: every string over {~ / 0 1 - a é} up to length 5 (quick) / 6 (thorough) and random texts through all conversions and serde paths; Token::from on MIN, MIN+1, MAX-1, MAX of the 12 integer types "
+                "and random integers of every bit width; non-trivial = text with an escape or inner '/', or a multi-digit integer; distinct = distinct case lines",
+    },
     "C04": {
         "runs": [{"suite": "tokens"}],
         "level_text": "Proved in Coq for all lists of byte strings and all valid pointer texts: the transliterated from_tokens (fold of pushes through Token::new) equals the flat-map spec; "
